@@ -97,7 +97,9 @@ def numeric_grad(func, x, backend, eps=None):
     # Convert backend tensors to numpy for gradient computation
     if backend.is_backend_array(x):
         x = backend.to_numpy(x)
-    x = np.asarray(x, dtype=float_dtype)
+    # work on a private copy: the point is perturbed in place below, and asarray() would
+    # hand back the caller's own array when it already has the right dtype
+    x = np.array(x, dtype=float_dtype)
 
     grad = np.zeros_like(x, dtype=float_dtype)
     it = np.nditer(x, flags=['multi_index'], op_flags=['readwrite'])
